@@ -84,7 +84,7 @@ FLEN = vp.T(1, 2)
 TEMPL = [
   ("S\t{}\t*", "gfa1"), ("S\ta\t{}", "gfa1"), ("S\ta\t*\tLN:i:{}", "gfa1"), ("S\ta\t*\t{}", "gfa1"), ("S\ta\t*\t{}:i:1", "gfa1"),
   ("L\t{}\t+\tb\t-\t*", "gfa1"), ("L\ta\t{}\tb\t-\t*", "gfa1"), ("L\ta\t+\tb\t-\t{}", "gfa1"), ("C\ta\t+\tb\t-\t{}\t*", "gfa1"),
-  ("P\t{}\ta+,b-\t*", "gfa1"), ("P\tp\t{}\t*", "gfa1"), ("P\tp\ta+,b-\t{}", "gfa1"), ("H\tVN:Z:{}", None), ("#{}", None), ("{}\ta\tb", None),
+  ("P\t{}\ta+,b-\t*", "gfa1"), ("P\tp\t{}\t*", "gfa1"), ("P\tp\ta+,b-\t{}", "gfa1"), ("P\tp\ta+,b-,a+\t{}", "gfa1"), ("H\tVN:Z:{}", None), ("#{}", None), ("{}\ta\tb", None),
   ("S\t{}\t5\t*", "gfa2"), ("S\ta\t{}\t*", "gfa2"), ("S\ta\t5\t{}", "gfa2"), ("E\t{}\ta+\tb-\t0\t1\t0\t1\t*", "gfa2"), ("E\te\t{}\tb-\t0\t1\t0\t1\t*", "gfa2"),
   ("E\te\ta+\tb-\t{}\t1\t0\t1\t*", "gfa2"), ("E\te\ta+\tb-\t0\t{}\t0\t1\t*", "gfa2"), ("E\te\ta+\tb-\t0\t1\t0\t1\t{}", "gfa2"),
   ("G\tg\ta+\tb-\t{}\t*", "gfa2"), ("G\tg\ta+\tb-\t5\t{}", "gfa2"), ("F\ta\t{}\t0\t1\t0\t1\t*", "gfa2"), ("O\to\t{}", "gfa2"), ("U\tu\t{}", "gfa2"),
@@ -120,6 +120,17 @@ def h_field_mutation(ti: int, n: int, c0: int, c1: int, c2: int, vl: int) -> boo
   _only_gfapy(lambda: l.validate())
   _only_gfapy(lambda: str(l.clone()))
   _only_gfapy(lambda: l.to_list())
+  # the same text inside a Gfa that defines the segments it may name (reference initialisation, traversals)
+  def connect():
+    g = gfapy.Gfa(vlevel=level, version=version)
+    for t in (["S\ta\t*", "S\tb\t*"] if version == "gfa1" else (["S\ta\t5\t*", "S\tb\t5\t*"] if version == "gfa2" else [])):
+      if not text.startswith("S\t"): g.add_line(t)
+    g.add_line(text)
+    g.process_line_queue()
+    str(g); g.validate(); g.names
+    for s in g.segments: s.dovetails; s.neighbours
+    g.connected_components()
+  _only_gfapy(connect)
   return True
 
 MDOCS = [
@@ -185,7 +196,7 @@ def h_api_strings(di: bool, call: int, n: int, c0: int, c1: int) -> bool:
   calls = [
     lambda: g.line(s), lambda: g.segment(s), lambda: g.try_get_line(s), lambda: g.try_get_segment(s), lambda: g.rm(s),
     lambda: seg.get(s), lambda: seg.try_get(s), lambda: seg.set(s, "v"), lambda: seg.set(s, 5), lambda: seg.delete(s),
-    lambda: seg.validate_field(s) if s in seg._data else None, lambda: seg.get_datatype(s), lambda: seg.set_datatype(s, "Z"), lambda: seg.set_datatype("xx", s),
+    lambda: seg.validate_field(s), lambda: seg.get_datatype(s), lambda: seg.set_datatype(s, "Z"), lambda: seg.set_datatype("xx", s),
     lambda: g.segment_connected_component(s) if g.segment(s) else None, lambda: g.linear_path(s) if g.segment(s) else None,
     lambda: seg.set("xx", s), lambda: seg.set("sequence", s), lambda: (seg.set("xx", s), str(seg)), lambda: (seg.set("sequence", s), seg.validate()),
     lambda: g.add_line(s), lambda: g.select({"name": s}),
